@@ -5,6 +5,8 @@ import QclibModel.Proofs.TreeTopDown
 import QclibModel.Proofs.TreeDcsp
 import QclibModel.Proofs.TreeBdsp
 import QclibModel.Proofs.TreeSEqN
+import QclibModel.Proofs.PyLemmas
+import QclibModel.Gen.TreeWidth
 /-
   C11 — ancilla-tree state preparation (BdspInitialize / DcspInitialize): widths, allocation,
   output marginals.  Property theorems only; proofs live in Proofs/Tree*.lean.
@@ -15,6 +17,55 @@ import QclibModel.Proofs.TreeSEqN
   trees with arbitrary angles (zero angles / zero sub-trees included).
 -/
 namespace Qclib
+
+/-- **C11 (source tie, default split).**  `Gen.TreeWidth.bdsp_split` is re-translated on every run
+from the statements of `BdspInitialize.__init__` that set `self.split` (`opt_params is None`,
+`opt_params.get("split")` as parameters, `len(params)` as an integer).  For every `n`, on `2^n`
+amplitudes it is the hand model's `split.getD (bdspDefaultSplit len)`: the requested split when
+`opt_params` is a dictionary whose `"split"` entry is not `None`, else the default
+`int(ceil(log2(len)/2))`.  An edit of the rounding, the divisor, or the `None` handling in the
+source breaks this proof. -/
+theorem C11_split_src (n : Nat) (optNone : Bool) (s : Option Nat) :
+    Gen.TreeWidth.bdsp_split ((2 ^ n : Nat) : Int) optNone (s.map Int.ofNat)
+      = ((((if optNone then none else s).getD (bdspDefaultSplit (2 ^ n)) : Nat)) : Int) := by
+  have hd : Py.pyCeilDiv (Py.pyLog2Ceil ((2 ^ n : Nat) : Int)) 2
+      = ((bdspDefaultSplit (2 ^ n) : Nat) : Int) := by
+    rw [Py.pyLog2Ceil_two_pow, Py.pyCeilDiv_two, bdspDefaultSplit, Nat.log2_two_pow]
+  generalize ((2 ^ n : Nat) : Int) = L at hd
+  generalize bdspDefaultSplit (2 ^ n) = d at hd
+  unfold Gen.TreeWidth.bdsp_split
+  cases optNone <;> cases s <;> simp [hd]
+
+/-- **C11 (source tie, declared width of BDSP).**  The translation of the current source of
+`BdspInitialize._get_num_qubits` equals the hand model `bdspDeclared` for every number of
+amplitudes `len` and every split `s` (`(s+1)·2^(⌊log2 len⌋ − s) − 1`; for `s > ⌊log2 len⌋`, where
+Python's `**` would leave the integers, both sides use exponent 0 — outside the property). -/
+theorem C11_declared_src (len s : Nat) :
+    Gen.TreeWidth.bdsp_num_qubits (s : Int) (len : Int) = ((bdspDeclared len s : Nat) : Int) := by
+  unfold Gen.TreeWidth.bdsp_num_qubits bdspDeclared
+  simp only [Py.pyLog2Floor_cast]
+  have e : Py.pyPow 2 ((Nat.log2 len : Int) - (s : Int)) = ((2 ^ (Nat.log2 len - s) : Nat) : Int) := by
+    have : ((Nat.log2 len : Int) - (s : Int)).toNat = Nat.log2 len - s := by omega
+    simp [Py.pyPow, this]
+  rw [e]
+  have hp : 1 ≤ 2 ^ (Nat.log2 len - s) := Nat.one_le_two_pow
+  generalize 2 ^ (Nat.log2 len - s) = p at hp ⊢
+  have : 1 ≤ (s + 1) * p := Nat.mul_pos (by omega) hp
+  rw [Int.natCast_sub this]
+  simp
+
+/-- **C11 (source tie, declared width of DCSP).**  The translation of the current source of
+`DcspInitialize._get_num_qubits` is `len − 1` = the hand model `dcspDeclared` (for `len ≥ 1`). -/
+theorem C11_dcsp_src (len : Nat) (h : 1 ≤ len) :
+    Gen.TreeWidth.dcsp_num_qubits (len : Int) = ((dcspDeclared len : Nat) : Int) := by
+  show (len : Int) - 1 = ((len - 1 : Nat) : Int)
+  omega
+
+/-- Non-vacuity: 32 amplitudes — default split 3 (with `opt_params=None` and with `{}`), requested
+split 2 gives width 23, DCSP declares 31. -/
+example : Gen.TreeWidth.bdsp_split 32 true none = 3 ∧ Gen.TreeWidth.bdsp_split 32 false none = 3
+    ∧ Gen.TreeWidth.bdsp_split 32 false (some 2) = 2
+    ∧ Gen.TreeWidth.bdsp_num_qubits 2 32 = 23 ∧ Gen.TreeWidth.dcsp_num_qubits 32 = 31 := by decide
 
 /-- **C11 (width).**  For every `n`, every split `1 ≤ s ≤ n`, every vector (`leaves`) and any
 number type: the model of `BdspInitialize` does not reject, the qubit count computed by
